@@ -6,7 +6,8 @@ From Coq Require Import String Ascii.
 From Coq Require Import List NArith Bool.
 Import ListNotations.
 From L4 Require Import Model.Pattern Proofs.PatternSpec Proofs.Pattern Proofs.PatternMeaning
-     Proofs.PatternParse Proofs.PatternPrefix Proofs.PatternTheorems.
+     Proofs.PatternParse Proofs.PatternPrefix Proofs.PatternTheorems Proofs.PatternPrefixGen
+     Proofs.PatternExtra.
 Local Open Scope N_scope.
 
 (* The parser terminates on every string: the fuel length+1 always suffices. *)
@@ -44,25 +45,32 @@ Theorem C11_parser_fuel_irrelevant :
 Proof. exact top_loop_parse. Qed.
 Print Assumptions C11_parser_fuel_irrelevant.
 
-(* Whatever follows a well-formed pattern, the well-formed part renders fully
-   and the rest renders as it would alone.
-   _partial: `last_boundary seq junk` requires, when the LAST node of the
-   well-formed part is a literal, that junk is empty or starts with one of
-   { } ( ) \ (otherwise the literal and junk's first text run are ONE Text
-   piece; the statement still holds at the level of output items but that case
-   is not proved), and when the last node is a format with a bare ':' spec that
-   junk does not start with '<' or '>' (finding F-C09-empty-spec-lookahead). *)
-Theorem C11_prefix_renders_before_error_partial :
+(* Whatever follows a well-formed pattern - junk of any kind - the well-formed
+   part renders fully (its meaning) and the rest renders as it would alone.
+   Only the open finding F-C09-empty-spec-lookahead is excluded: the last
+   format of the well-formed part has a bare ':' spec and junk starts with
+   '<' or '>'. *)
+Theorem C11_prefix_renders_before_error :
   forall (al an : N -> bool), oracle_ok al an ->
   forall ok ts e seq junk cj,
     wf_seq al an true false seq = true ->
     forallb (sem_ok ok) seq = true ->
-    last_boundary seq junk ->
+    last_not_lookahead seq junk ->
     construct al an ok junk = Ok cj ->
     exists cs, construct al an ok (print_seq seq ++ junk) = Ok cs
                /\ encode ok ts e cs = meaning_seq ts e seq ++ encode ok ts e cj.
-Proof. exact prefix_renders. Qed.
-Print Assumptions C11_prefix_renders_before_error_partial.
+Proof. exact prefix_renders_full. Qed.
+Print Assumptions C11_prefix_renders_before_error.
+
+(* A width whose decimal value exceeds usize::MAX is the error "width too
+   large": no wrap-around, no panic, in every build profile. *)
+Theorem C11_width_overflow_is_error :
+  forall ds rest,
+    forallb is_digit ds = true -> hd_digit rest = false ->
+    usize_max < digits_val ds ->
+    integer (ds ++ rest) = (inr msg_width, rest).
+Proof. exact integer_overflow_is_error. Qed.
+Print Assumptions C11_width_overflow_is_error.
 
 (* An invalid time zone argument is an error chunk, outside the open finding
    class (several pieces, the first being utc/local). *)
@@ -104,7 +112,7 @@ Example C11_ex_errors :
 Proof. vm_compute; reflexivity. Qed.
 
 Example C11_ex_prefix :
-  last_boundary ex_prefix_seq (LIT "{nope") /\
+  last_not_lookahead ex_prefix_seq (LIT "{nope") /\
   wf_seq a_alpha a_alnum true false ex_prefix_seq = true /\
   forallb (sem_ok w_ok) ex_prefix_seq = true.
 Proof. repeat split; vm_compute; try reflexivity; intros; try discriminate. Qed.
